@@ -1,5 +1,815 @@
 //! More rules: C10 (atomic namespaces), C11 (deletion consistency), C13 (listing),
 //! C14 (push), C16 (abandonment audit), C17 (malformed requests).
-use crate::oracle::{Ctx, Violation};
+use crate::lin;
+use crate::log::*;
+use crate::model::*;
+use crate::oracle::{Ctx, Violation, SLACK_US};
+use crate::plan::ListKind;
+use base64::Engine;
+use std::collections::{BTreeMap, BTreeSet, HashMap, HashSet};
 
-pub fn evaluate_more(_ctx: &Ctx, _out: &mut Vec<Violation>) {}
+fn v(rule: &str, key: impl Into<String>, detail: impl Into<String>) -> Violation {
+    Violation { rule: rule.to_string(), key: key.into(), detail: detail.into() }
+}
+
+pub fn evaluate_more(ctx: &Ctx, out: &mut Vec<Violation>) {
+    rule_c14(ctx, out);
+    rule_c13(ctx, out);
+    rule_c10(ctx, out);
+    rule_c11(ctx, out);
+    rule_c16(ctx, out);
+    rule_c17(ctx, out);
+}
+
+// =================================================================================================
+// C14: push
+// =================================================================================================
+
+fn rule_c14(ctx: &Ctx, out: &mut Vec<Violation>) {
+    let m = ctx.m;
+    if m.posts.is_empty() && !ctx.plan.has_tag("push") {
+        return;
+    }
+    for p in m.posts.values() {
+        if !p.parse_ok {
+            out.push(v("C14.payload", "unparsable", format!("POST #{} to {} is not the documented JSON (subscription, message.data base64, message.message_id)", p.post, p.url)));
+            continue;
+        }
+        if p.msg_id_dupe != p.recv.msg_id {
+            out.push(v("C14.payload", "messageId", format!("POST #{}: messageId {:?} != message_id {:?}", p.post, p.msg_id_dupe, p.recv.msg_id)));
+        }
+        if !p.content_type.to_ascii_lowercase().contains("json") {
+            out.push(v("C14.payload", "content_type", format!("POST #{}: content type {:?}", p.post, p.content_type)));
+        }
+        // The named subscription must be one that was created with a push endpoint, and the POST
+        // must go to that endpoint.
+        let creates = m.sub_creates.get(&p.sub);
+        let mut push_instance = false;
+        let mut any_instance = false;
+        let mut endpoint_ok = false;
+        if let Some(cs) = creates {
+            for c in cs {
+                let call = &m.calls[c];
+                if !call.maybe_effective() {
+                    continue;
+                }
+                any_instance = true;
+                if let Req::CreateSub { push: Some(ps), .. } = &call.req {
+                    push_instance = true;
+                    if ps.endpoint.trim() == p.url {
+                        endpoint_ok = true;
+                    }
+                }
+            }
+        }
+        if !any_instance {
+            out.push(v("C14.payload", "unknown_subscription", format!("POST #{} names subscription {:?} which was never created", p.post, p.sub)));
+        } else if !push_instance {
+            out.push(v("C14.nonpush", "nonpush", format!("POST #{} names {} which has no push endpoint", p.post, p.sub)));
+        } else if !endpoint_ok {
+            out.push(v("C14.payload", "wrong_endpoint", format!("POST #{} for {} went to {}", p.post, p.sub, p.url)));
+        }
+        // C14.stop: no POST for a deleted subscription starts after the barrier following the delete.
+        if let Some(dels) = m.sub_deletes.get(&p.sub) {
+            if m.unique_sub(&p.sub).is_some() {
+                for dc in dels {
+                    let del = &m.calls[dc];
+                    if del.returned_ok() {
+                        if let Some(b) = m.barrier_after(del.ret_seq.unwrap()) {
+                            if p.seq > b.seq {
+                                out.push(v("C14.stop", "post_after_delete", format!("POST #{} for {} at {}us, after DeleteSubscription returned (seq {}) and the system was quiescent (seq {})", p.post, p.sub, p.t, del.ret_seq.unwrap(), b.seq)));
+                            }
+                        }
+                    }
+                }
+            }
+        }
+    }
+    // C14.accept: an accepting answer inside the lease settles the message for good.
+    for ((sub, msg), list) in m.deliveries_by_key.iter() {
+        if list.len() < 2 {
+            continue;
+        }
+        let inst = match m.unique_sub(sub) {
+            Some(i) if i.push.is_some() => i,
+            _ => continue,
+        };
+        for (i, &a) in list.iter().enumerate() {
+            let d = &m.deliveries[a];
+            if !matches!(d.via, Via::Push { .. }) {
+                continue;
+            }
+            for &b in list.iter().skip(i + 1) {
+                let d2 = &m.deliveries[b];
+                // the later delivery's earliest hand-out, as a sequence number when known
+                let from = if d2.lo_seq > 0 { d2.lo_seq } else { first_seq_at_or_after(m, d2.lo_t) };
+                let lease = ctx.lease_at(d, inst.deadline_us(), from, d2.recv_seq);
+                if let Some((aseq, at)) = lease.acked_at {
+                    let after = if d2.lo_seq > 0 { aseq < d2.lo_seq } else { at < d2.lo_t };
+                    if after {
+                        out.push(v("C14.accept", "posted_again", format!("{}: message {} was accepted by the endpoint (settled by {}us) and delivered again at {}us", sub, msg, at, d2.recv_t)));
+                    }
+                }
+            }
+        }
+    }
+    // C14.retry / C14.reject: bounded liveness after faults stop.
+    if let Some((fseq, ft)) = m.faults_off {
+        let interval_us = ctx.plan.knobs.push_interval_ms as u64 * 1000;
+        for name in m.sub_creates.keys() {
+            let inst = match m.unique_sub(name) {
+                Some(i) if i.push.is_some() => i,
+                _ => continue,
+            };
+            if m.sub_delete_ever(name) || m.unique_topic(&inst.topic).is_none() || m.topic_deletes.contains_key(&inst.topic) {
+                continue;
+            }
+            if inst.deadline_us() > 600_000_000 {
+                continue;
+            }
+            let create = &m.calls[&inst.create_call];
+            // the run must have lasted long enough after faults stopped
+            let bound = ft + interval_us + inst.deadline_us() + 2 * SLACK_US + 1_100_000;
+            let horizon = m.health_start.map(|h| h.1).or(m.drain_start.map(|d| d.1)).unwrap_or(m.end_t);
+            if horizon < bound {
+                continue;
+            }
+            // Never-answered attempts keep their lease; they push the bound out by one lease.
+            for p in m.published.iter() {
+                if p.topic != inst.topic || p.stage != Stage::Run {
+                    continue;
+                }
+                let pc = &m.calls[&p.call];
+                let id = match (&p.msg_id, pc.returned_ok()) {
+                    (Some(id), true) => id,
+                    _ => continue,
+                };
+                if !(create.ret_seq_or_max() < pc.inv_seq) || pc.ret_seq.unwrap() > fseq {
+                    continue;
+                }
+                // consumers other than the push loop may have taken it (pull on a push subscription)
+                let taken_elsewhere = m.deliveries_by_key.get(&(name.clone(), id.clone())).map(|l| l.iter().any(|&i| !matches!(m.deliveries[i].via, Via::Push { .. }))).unwrap_or(false);
+                if taken_elsewhere {
+                    continue;
+                }
+                let posts: Vec<&PostInfo> = m.posts.values().filter(|x| x.sub == *name && x.recv.msg_id == *id).collect();
+                let accepted: Vec<&&PostInfo> = posts.iter().filter(|x| x.accepted() && x.t <= bound).collect();
+                if accepted.is_empty() {
+                    let statuses: Vec<String> = posts.iter().map(|x| format!("{:?}@{}us", x.answer.map(|a| a.2), x.t)).collect();
+                    out.push(v(
+                        "C14.retry",
+                        if posts.is_empty() { "never_posted" } else { "not_retried" },
+                        format!("{}: message {} had no accepted POST by {}us (faults stopped at {}us, interval {}us, lease {}us); attempts: [{}]", name, id, bound, ft, interval_us, inst.deadline_us(), statuses.join(", ")),
+                    ));
+                }
+            }
+        }
+    }
+}
+
+fn first_seq_at_or_after(m: &Model, t: u64) -> u64 {
+    m.events.iter().find(|e| e.t_us >= t).map(|e| e.seq).unwrap_or(u64::MAX)
+}
+
+// =================================================================================================
+// C13: listing and pagination
+// =================================================================================================
+
+fn effective_page_size(requested: i32) -> usize {
+    match requested {
+        0 => 20,
+        x if x > 1000 => 1000,
+        x => x as usize,
+    }
+}
+
+fn token_decodable(token: &str) -> Option<u64> {
+    let bytes = base64::engine::general_purpose::STANDARD.decode(token).ok()?;
+    let arr: [u8; 8] = bytes.try_into().ok()?;
+    Some(u64::from_ne_bytes(arr))
+}
+
+/// Names that certainly exist / may exist under a listing parent at sequence number `seq`,
+/// with the real-time partial order of their creation.
+struct Expected {
+    /// name -> (create invoke seq, create return seq) of the instance alive at `seq`
+    certain: BTreeMap<String, (u64, u64)>,
+    /// names whose presence is uncertain (operations in flight / abandoned / overlapping)
+    uncertain: BTreeSet<String>,
+}
+
+fn project_of(name: &str) -> Option<&str> {
+    let rest = name.strip_prefix("projects/")?;
+    rest.split('/').next()
+}
+
+fn expected_names(ctx: &Ctx, kind: &ListKind, parent: &str, seq: u64) -> Option<Expected> {
+    let m = ctx.m;
+    let mut certain = BTreeMap::new();
+    let mut uncertain = BTreeSet::new();
+    match kind {
+        ListKind::Topics => {
+            let project = parent.strip_prefix("projects/")?;
+            for name in m.topic_creates.keys() {
+                if project_of(name) != Some(project) {
+                    continue;
+                }
+                match lin::state_at(ctx, false, name, seq) {
+                    lin::NameState::Absent => {}
+                    lin::NameState::Present(c) => {
+                        let call = &m.calls[&c];
+                        certain.insert(name.clone(), (call.inv_seq, call.ret_seq_or_max()));
+                    }
+                    lin::NameState::Unknown => {
+                        uncertain.insert(name.clone());
+                    }
+                }
+            }
+        }
+        ListKind::Subs => {
+            let project = parent.strip_prefix("projects/")?;
+            for name in m.sub_creates.keys() {
+                if project_of(name) != Some(project) {
+                    continue;
+                }
+                match lin::state_at(ctx, true, name, seq) {
+                    lin::NameState::Absent => {}
+                    lin::NameState::Present(c) => {
+                        let call = &m.calls[&c];
+                        certain.insert(name.clone(), (call.inv_seq, call.ret_seq_or_max()));
+                    }
+                    lin::NameState::Unknown => {
+                        uncertain.insert(name.clone());
+                    }
+                }
+            }
+        }
+        ListKind::TopicSubs => {
+            // the topic itself must be certainly present, with a single instance
+            let tcall = match lin::state_at(ctx, false, parent, seq) {
+                lin::NameState::Present(c) => c,
+                _ => return None,
+            };
+            let tcreate = &m.calls[&tcall];
+            for name in m.sub_creates.keys() {
+                match lin::state_at(ctx, true, name, seq) {
+                    lin::NameState::Absent => {}
+                    lin::NameState::Present(c) => {
+                        let call = &m.calls[&c];
+                        if let Req::CreateSub { topic, .. } = &call.req {
+                            if topic != parent {
+                                continue;
+                            }
+                        }
+                        // created on *this* instance of the topic?
+                        if call.inv_seq > tcreate.ret_seq_or_max() {
+                            certain.insert(name.clone(), (call.inv_seq, call.ret_seq_or_max()));
+                        } else if call.ret_seq_or_max() < tcreate.inv_seq {
+                            // created on an earlier instance of the topic name: orphan, not listed
+                        } else {
+                            uncertain.insert(name.clone());
+                        }
+                    }
+                    lin::NameState::Unknown => {
+                        // only relevant if some create of it targeted this topic
+                        let targets = m.sub_creates[name].iter().any(|c| matches!(&m.calls[c].req, Req::CreateSub { topic, .. } if topic == parent));
+                        if targets {
+                            uncertain.insert(name.clone());
+                        }
+                    }
+                }
+            }
+        }
+    }
+    Some(Expected { certain, uncertain })
+}
+
+fn rule_c13(ctx: &Ctx, out: &mut Vec<Violation>) {
+    let m = ctx.m;
+    for c in m.calls.values() {
+        match (&c.req, &c.out) {
+            (Req::Walk { kind, parent, page_size }, Some(Outcome::Ok(Resp::Walk(pages)))) => {
+                let kind_name = format!("{:?}", kind);
+                if *page_size < 0 {
+                    if pages.len() != 1 || pages[0].code != INVALID_ARGUMENT {
+                        out.push(v("C13.reject", format!("negative_size:{kind_name}"), format!("{:?} walk of {} with page_size {} was not rejected with INVALID_ARGUMENT: {:?}", kind, parent, page_size, pages.first().map(|p| p.code))));
+                    }
+                    continue;
+                }
+                // every page OK, sizes bounded, termination
+                let eff = effective_page_size(*page_size);
+                let mut bad_status = false;
+                for p in pages.iter() {
+                    if p.code != OK {
+                        bad_status = true;
+                    }
+                    if p.names.len() > eff {
+                        out.push(v("C13.size", format!("page_too_big:{kind_name}"), format!("{:?} walk of {} page_size {}: a page has {} entries (effective size {})", kind, parent, page_size, p.names.len(), eff)));
+                    }
+                }
+                if bad_status {
+                    // NOT_FOUND for a missing topic etc. is judged by C10; a walk that was cut
+                    // short by an error is not a listing to compare.
+                    continue;
+                }
+                if pages.last().map(|p| !p.next.is_empty()).unwrap_or(true) {
+                    out.push(v("C13.end", format!("no_end:{kind_name}"), format!("{:?} walk of {} page_size {} did not end after {} pages", kind, parent, page_size, pages.len())));
+                    continue;
+                }
+                // the walk must not overlap any create/delete (the property assumes none)
+                if overlaps_mutation(ctx, c.inv_seq, c.ret_seq.unwrap()) {
+                    continue;
+                }
+                let exp = match expected_names(ctx, kind, parent, c.inv_seq) {
+                    Some(e) => e,
+                    None => continue,
+                };
+                let got: Vec<&String> = pages.iter().flat_map(|p| p.names.iter()).collect();
+                let mut seen = HashSet::new();
+                for g in got.iter() {
+                    if !seen.insert(g.as_str()) {
+                        out.push(v("C13.walk", format!("duplicate:{kind_name}"), format!("{:?} walk of {}: {} listed twice", kind, parent, g)));
+                    }
+                    if !exp.certain.contains_key(g.as_str()) && !exp.uncertain.contains(g.as_str()) {
+                        out.push(v("C13.walk", format!("unexpected:{kind_name}"), format!("{:?} walk of {} (page_size {}): {} listed but it does not exist there", kind, parent, page_size, g)));
+                    }
+                }
+                for name in exp.certain.keys() {
+                    if !seen.contains(name.as_str()) {
+                        out.push(v("C13.walk", format!("missing:{kind_name}"), format!("{:?} walk of {} (page_size {}): {} exists but was not listed ({} listed over {} pages)", kind, parent, page_size, name, got.len(), pages.len())));
+                    }
+                }
+                // creation order: if a's create returned before b's create was invoked, a precedes b
+                let pos: HashMap<&str, usize> = got.iter().enumerate().map(|(i, g)| (g.as_str(), i)).collect();
+                for (a, (_ai, ar)) in exp.certain.iter() {
+                    for (b, (bi, _br)) in exp.certain.iter() {
+                        if ar < bi {
+                            if let (Some(pa), Some(pb)) = (pos.get(a.as_str()), pos.get(b.as_str())) {
+                                if pa > pb {
+                                    out.push(v("C13.walk", format!("order:{kind_name}"), format!("{:?} walk of {}: {} (created first) listed after {}", kind, parent, a, b)));
+                                }
+                            }
+                        }
+                    }
+                }
+            }
+            (Req::ListPage { kind, parent, page_size, token }, Some(o)) => {
+                let kind_name = format!("{:?}", kind);
+                let code = match o.code() {
+                    Some(c) => c,
+                    None => continue,
+                };
+                let names: Vec<String> = match o {
+                    Outcome::Ok(Resp::Names(n, _)) => n.clone(),
+                    Outcome::Ok(Resp::Subs(sv, _)) => sv.iter().map(|x| x.name.clone()).collect(),
+                    _ => vec![],
+                };
+                let decodable = token.is_empty() || token_decodable(token).is_some();
+                if *page_size < 0 || !decodable {
+                    if code != INVALID_ARGUMENT {
+                        out.push(v("C13.reject", format!("not_rejected:{kind_name}"), format!("{:?} page of {} with page_size {} token {:?} returned code {} instead of INVALID_ARGUMENT", kind, parent, page_size, token, code)));
+                    }
+                    continue;
+                }
+                // decodable token, non-negative size: must be OK (or a C10 matter for a missing
+                // parent) and a contiguous slice of the full listing
+                if code == NOT_FOUND || code == INVALID_ARGUMENT && !parent.starts_with("projects/") {
+                    continue;
+                }
+                if code != OK {
+                    if !overlaps_mutation(ctx, c.inv_seq, c.ret_seq.unwrap()) {
+                        out.push(v("C13.forged", format!("status:{kind_name}"), format!("{:?} page of {} with page_size {} and decodable token {:?} returned code {}", kind, parent, page_size, token, code)));
+                    }
+                    continue;
+                }
+                if names.len() > effective_page_size(*page_size) {
+                    out.push(v("C13.size", format!("page_too_big:{kind_name}"), format!("{:?} page of {} page_size {}: {} entries", kind, parent, page_size, names.len())));
+                }
+                if overlaps_mutation(ctx, c.inv_seq, c.ret_seq.unwrap()) {
+                    continue;
+                }
+                if let Some(exp) = expected_names(ctx, kind, parent, c.inv_seq) {
+                    if !exp.uncertain.is_empty() {
+                        continue;
+                    }
+                    for n in names.iter() {
+                        if !exp.certain.contains_key(n) {
+                            out.push(v("C13.forged", format!("unexpected:{kind_name}"), format!("{:?} page of {} (token {:?}): {} listed but does not exist there", kind, parent, token, n)));
+                        }
+                    }
+                    let offset = if token.is_empty() { 0 } else { token_decodable(token).unwrap() };
+                    let total = exp.certain.len() as u64;
+                    let want = (total.saturating_sub(offset)).min(effective_page_size(*page_size) as u64);
+                    if names.len() as u64 != want {
+                        out.push(v("C13.forged", format!("slice:{kind_name}"), format!("{:?} page of {} (offset {} of {} entries, page_size {}): {} entries returned, expected {}", kind, parent, offset, total, page_size, names.len(), want)));
+                    }
+                }
+            }
+            _ => {}
+        }
+    }
+}
+
+/// Does any create/delete overlap the window [from, to] (sequence numbers)?
+fn overlaps_mutation(ctx: &Ctx, from: u64, to: u64) -> bool {
+    ctx.m.calls.values().any(|c| {
+        matches!(c.req, Req::CreateSub { .. } | Req::DeleteSub { .. } | Req::CreateTopic { .. } | Req::DeleteTopic { .. })
+            && c.inv_seq < to
+            && (c.ret_seq_or_max() > from || !matches!(c.out, Some(Outcome::Ok(_)) | Some(Outcome::Err(_, _))))
+    })
+}
+
+// =================================================================================================
+// C10: namespaces are atomic maps (per-name linearizability)
+// =================================================================================================
+
+fn rule_c10(ctx: &Ctx, out: &mut Vec<Violation>) {
+    if !ctx.plan.has_tag("names") {
+        return;
+    }
+    let m = ctx.m;
+    let mut topic_names: BTreeSet<String> = m.topic_creates.keys().cloned().collect();
+    let mut sub_names: BTreeSet<String> = m.sub_creates.keys().cloned().collect();
+    for c in m.calls.values() {
+        match &c.req {
+            Req::GetTopic { topic } | Req::DeleteTopic { topic } | Req::Publish { topic, .. } => {
+                topic_names.insert(topic.clone());
+            }
+            Req::GetSub { sub } | Req::DeleteSub { sub } | Req::Pull { sub, .. } | Req::Ack { sub, .. } | Req::ModAck { sub, .. } => {
+                sub_names.insert(sub.clone());
+            }
+            _ => {}
+        }
+    }
+    for name in topic_names {
+        if let Some(problem) = lin::check_name(ctx, false, &name) {
+            out.push(v("C10.lin", problem.key, format!("topic name {}: {}", name, problem.detail)));
+        }
+    }
+    for name in sub_names {
+        if let Some(problem) = lin::check_name(ctx, true, &name) {
+            out.push(v("C10.lin", problem.key, format!("subscription name {}: {}", name, problem.detail)));
+        }
+    }
+    // C10.echo for fields other than the deadline (the deadline is the register value of the
+    // linearizability check): name, push endpoint, attributes, OIDC fields.
+    for c in m.calls.values() {
+        let views: Vec<&SubView> = match &c.out {
+            Some(Outcome::Ok(Resp::Sub(sv))) => vec![sv],
+            Some(Outcome::Ok(Resp::Subs(list, _))) => list.iter().collect(),
+            _ => continue,
+        };
+        for sv in views {
+            // find the create with this name and this (unique) deadline
+            let creates = match m.sub_creates.get(&sv.name) {
+                Some(cs) => cs,
+                None => {
+                    out.push(v("C10.echo", "unknown_name", format!("call {} returned subscription {:?} that was never created", c.id, sv.name)));
+                    continue;
+                }
+            };
+            let matching: Vec<&Call> = creates.iter().map(|x| &m.calls[x]).filter(|x| matches!(&x.req, Req::CreateSub { ack_deadline, .. } if (*ack_deadline).max(10) == sv.ack_deadline) && x.maybe_effective()).collect();
+            if matching.is_empty() {
+                out.push(v("C10.echo", "deadline", format!("call {} returned {} with ack deadline {} which no create of that name asked for", c.id, sv.name, sv.ack_deadline)));
+                continue;
+            }
+            let ok = matching.iter().any(|x| {
+                if let Req::CreateSub { topic, push, .. } = &x.req {
+                    let topic_ok = sv.topic == *topic || (sv.topic == "_deleted_topic_" && m.topic_deletes.get(topic).map(|d| d.iter().any(|dc| m.calls[dc].inv_seq < c.ret_seq_or_max())).unwrap_or(false));
+                    let push_ok = match push {
+                        None => sv.push_endpoint.is_none(),
+                        Some(ps) => sv.push_endpoint.as_deref() == Some(ps.endpoint.trim()) && sv.push_attrs == ps.attrs && sv.oidc == ps.oidc,
+                    };
+                    topic_ok && push_ok
+                } else {
+                    false
+                }
+            });
+            if !ok {
+                out.push(v("C10.echo", "fields", format!("call {} returned {:?} which does not match what the subscription was created with", c.id, sv)));
+            }
+        }
+    }
+}
+
+// =================================================================================================
+// C11: deletion keeps topics and subscriptions consistent
+// =================================================================================================
+
+fn rule_c11(ctx: &Ctx, out: &mut Vec<Violation>) {
+    let m = ctx.m;
+    if !ctx.plan.has_tag("audit_lists") {
+        return;
+    }
+    // Audit walks are those issued by client 0 (the controller) at barriers.
+    for c in m.calls.values().filter(|c| c.client == 0) {
+        if let (Req::Walk { kind: ListKind::TopicSubs, parent, .. }, Some(Outcome::Ok(Resp::Walk(pages)))) = (&c.req, &c.out) {
+            if pages.iter().any(|p| p.code != OK) {
+                continue;
+            }
+            if in_flight_mutation(ctx, c.inv_seq) {
+                continue;
+            }
+            let exp = match expected_names(ctx, &ListKind::TopicSubs, parent, c.inv_seq) {
+                Some(e) => e,
+                None => continue,
+            };
+            let got: BTreeSet<&str> = pages.iter().flat_map(|p| p.names.iter()).map(|s| s.as_str()).collect();
+            for g in got.iter() {
+                if !exp.certain.contains_key(*g) && !exp.uncertain.contains(*g) {
+                    let gone = m.sub_deletes.get(*g).map(|d| d.iter().any(|dc| m.calls[dc].returned_ok())).unwrap_or(false);
+                    // Did a create of that name overlap a delete of it (the create's attach can
+                    // then land after the delete's detach)?
+                    let racing = m.sub_creates.get(*g).map(|cs| cs.iter().any(|cc| m.sub_deletes.get(*g).map(|ds| ds.iter().any(|dc| m.calls[cc].inv_seq < m.calls[dc].ret_seq_or_max() && m.calls[dc].inv_seq < m.calls[cc].ret_seq_or_max())).unwrap_or(false))).unwrap_or(false);
+                    out.push(v("C11.list", if gone && racing { "deleted_still_listed:create_overlaps_delete" } else if gone { "deleted_still_listed:sequential" } else { "unexpected" }, format!("ListTopicSubscriptions({}) at quiescence lists {} which is not a live subscription of this topic", parent, g)));
+                }
+            }
+            for name in exp.certain.keys() {
+                if !got.contains(name.as_str()) {
+                    out.push(v("C11.list", "missing", format!("ListTopicSubscriptions({}) at quiescence does not list live subscription {}", parent, name)));
+                }
+            }
+        }
+    }
+    // C11.orphan: after DeleteTopic returned, its subscriptions still exist and report the topic as deleted.
+    for c in m.calls.values().filter(|c| c.client == 0) {
+        if let Req::GetSub { sub } = &c.req {
+            if in_flight_mutation(ctx, c.inv_seq) {
+                continue;
+            }
+            let create_call = match lin::state_at(ctx, true, sub, c.inv_seq) {
+                lin::NameState::Present(cc) => cc,
+                lin::NameState::Absent => {
+                    if c.code() == Some(OK) {
+                        out.push(v("C11.gone", "still_gettable", format!("GetSubscription({}) at quiescence succeeds although the subscription was deleted", sub)));
+                    }
+                    continue;
+                }
+                lin::NameState::Unknown => continue,
+            };
+            let create = &m.calls[&create_call];
+            let topic = match &create.req {
+                Req::CreateSub { topic, .. } => topic.clone(),
+                _ => continue,
+            };
+            match &c.out {
+                Some(Outcome::Ok(Resp::Sub(sv))) => {
+                    // Was the topic instance it was created on deleted (delete returned OK before this audit)?
+                    let deleted_after_create = m.topic_deletes.get(&topic).map(|d| d.iter().any(|dc| m.calls[dc].returned_ok() && m.calls[dc].inv_seq > create.ret_seq_or_max() && m.calls[dc].ret_seq.unwrap() < c.inv_seq)).unwrap_or(false);
+                    let maybe_deleted = m.topic_deletes.get(&topic).map(|d| d.iter().any(|dc| m.calls[dc].maybe_effective() && m.calls[dc].ret_seq_or_max() > create.inv_seq && m.calls[dc].inv_seq < c.inv_seq)).unwrap_or(false);
+                    if deleted_after_create && sv.topic != "_deleted_topic_" {
+                        // transient handles keep the topic alive only while requests are in flight
+                        if !any_call_in_flight(ctx, c.inv_seq) {
+                            out.push(v("C11.orphan", "topic_not_reported_deleted", format!("GetSubscription({}) at quiescence reports topic {:?} although its topic was deleted", sub, sv.topic)));
+                        }
+                    }
+                    if !maybe_deleted && sv.topic != topic {
+                        out.push(v("C11.orphan", "wrong_topic", format!("GetSubscription({}) reports topic {:?}, created on {:?}", sub, sv.topic, topic)));
+                    }
+                }
+                Some(Outcome::Err(code, msg)) => {
+                    out.push(v("C11.orphan", "not_gettable", format!("GetSubscription({}) at quiescence fails with {} {:?} although the subscription exists", sub, code, msg)));
+                }
+                _ => {}
+            }
+        }
+    }
+}
+
+/// A create/delete that was invoked before `seq` and has not certainly finished by then.
+fn in_flight_mutation(ctx: &Ctx, seq: u64) -> bool {
+    ctx.m.calls.values().any(|c| matches!(c.req, Req::CreateSub { .. } | Req::DeleteSub { .. } | Req::CreateTopic { .. } | Req::DeleteTopic { .. }) && c.inv_seq < seq && c.ret_seq_or_max() > seq)
+}
+
+fn any_call_in_flight(ctx: &Ctx, seq: u64) -> bool {
+    ctx.m.calls.values().any(|c| c.inv_seq < seq && c.ret_seq_or_max() > seq) || ctx.m.streams.values().any(|s| s.open_seq < seq && s.end.as_ref().map(|e| e.0 > seq).unwrap_or(true))
+}
+
+// =================================================================================================
+// C16: abandoned requests are all-or-nothing
+// =================================================================================================
+
+fn rule_c16(ctx: &Ctx, out: &mut Vec<Violation>) {
+    let m = ctx.m;
+    if !ctx.plan.has_tag("cancel") {
+        return;
+    }
+    // C16.attached: at every audit, a subscription exists <=> it is in its (live) topic's list.
+    // Group audit calls by the barrier they follow.
+    let audits: Vec<&Call> = m.calls.values().filter(|c| c.client == 0).collect();
+    let mut by_barrier: BTreeMap<u64, Vec<&Call>> = BTreeMap::new();
+    for c in audits {
+        let b = m.barriers.iter().rev().find(|b| b.seq < c.inv_seq).map(|b| b.seq).unwrap_or(0);
+        by_barrier.entry(b).or_default().push(c);
+    }
+    for (_b, calls) in by_barrier.iter() {
+        let mut listed: BTreeMap<String, BTreeSet<String>> = BTreeMap::new(); // topic -> subs
+        let mut topic_ok: BTreeSet<String> = BTreeSet::new();
+        for c in calls.iter() {
+            match (&c.req, &c.out) {
+                (Req::Walk { kind: ListKind::TopicSubs, parent, .. }, Some(Outcome::Ok(Resp::Walk(pages)))) if pages.iter().all(|p| p.code == OK) => {
+                    listed.insert(parent.clone(), pages.iter().flat_map(|p| p.names.iter().cloned()).collect());
+                    topic_ok.insert(parent.clone());
+                }
+                _ => {}
+            }
+        }
+        for c in calls.iter() {
+            if let (Req::GetSub { sub }, Some(o)) = (&c.req, &c.out) {
+                match o {
+                    Outcome::Ok(Resp::Sub(sv)) => {
+                        if sv.topic != "_deleted_topic_" && topic_ok.contains(&sv.topic) {
+                            // the topic name must still denote the instance the subscription was created on
+                            let recreated = m.topic_creates.get(&sv.topic).map(|cs| cs.iter().filter(|x| m.calls[x].maybe_effective()).count() > 1).unwrap_or(false);
+                            if !recreated && !listed[&sv.topic].contains(sub) {
+                                let abandoned_create = m.sub_creates.get(sub).map(|cs| cs.iter().any(|x| matches!(m.calls[x].out, Some(Outcome::Abandoned(_))))).unwrap_or(false);
+                                out.push(v(
+                                    "C16.attached",
+                                    if abandoned_create { "abandoned_create_unattached" } else { "unattached" },
+                                    format!("subscription {} exists (GetSubscription OK, topic {}) but is not in ListTopicSubscriptions of that topic", sub, sv.topic),
+                                ));
+                            }
+                        }
+                    }
+                    Outcome::Err(NOT_FOUND, _) => {
+                        for (t, subs) in listed.iter() {
+                            if subs.contains(sub) {
+                                out.push(v("C16.attached", "listed_but_missing", format!("subscription {} is listed by topic {} but GetSubscription says NOT_FOUND", sub, t)));
+                            }
+                        }
+                    }
+                    _ => {}
+                }
+            }
+        }
+    }
+    // C16.partial_publish: an abandoned Publish is delivered entirely or not at all, on every
+    // subscription that was attached throughout.
+    if m.drain_end.is_some() {
+        for c in m.calls.values() {
+            if let (Req::Publish { topic, tokens, .. }, Some(Outcome::Abandoned(_))) = (&c.req, &c.out) {
+                let mut per_sub: Vec<(String, usize)> = Vec::new();
+                for name in m.sub_creates.keys() {
+                    let inst = match m.unique_sub(name) {
+                        Some(i) => i,
+                        None => continue,
+                    };
+                    if inst.topic != *topic || m.sub_delete_ever(name) || m.topic_deletes.contains_key(topic) || inst.deadline_us() > 600_000_000 {
+                        continue;
+                    }
+                    if m.calls[&inst.create_call].ret_seq_or_max() > c.inv_seq {
+                        continue;
+                    }
+                    let delivered: HashSet<&str> = m.deliveries.iter().filter(|d| d.sub == *name).map(|d| d.recv.token.as_str()).collect();
+                    let n = tokens.iter().filter(|t| delivered.contains(t.as_str())).count();
+                    per_sub.push((name.clone(), n));
+                }
+                for (name, n) in per_sub.iter() {
+                    if *n != 0 && *n != tokens.len() {
+                        out.push(v("C16.partial_publish", "partial_batch", format!("abandoned Publish call {} ({} messages): {} received {} of them", c.id, tokens.len(), name, n)));
+                    }
+                }
+                let counts: BTreeSet<usize> = per_sub.iter().map(|x| x.1).collect();
+                if counts.len() > 1 && counts.iter().all(|n| *n == 0 || *n == tokens.len()) {
+                    out.push(v("C16.partial_publish", "partial_fanout", format!("abandoned Publish call {}: delivered to some attached subscriptions and not to others: {:?}", c.id, per_sub)));
+                }
+            }
+        }
+    }
+}
+
+// =================================================================================================
+// C17: malformed requests
+// =================================================================================================
+
+pub fn definitely_malformed_name(s: &str) -> bool {
+    match s.strip_prefix("projects/") {
+        None => true,
+        Some(rest) => !rest.contains('/'),
+    }
+}
+
+fn definitely_malformed_ack_id(s: &str) -> bool {
+    // "+5" and "0007" are odd but numeric; only strings that are not a number at all, or that
+    // cannot be an ack ID of any width, are unambiguously malformed.
+    let digits = s.strip_prefix('+').unwrap_or(s);
+    digits.is_empty() || !digits.bytes().all(|b| b.is_ascii_digit()) || digits.trim_start_matches('0').len() > 25
+}
+
+fn rule_c17(ctx: &Ctx, out: &mut Vec<Violation>) {
+    let m = ctx.m;
+    if !ctx.plan.has_tag("hostile") {
+        return;
+    }
+    for c in m.calls.values() {
+        let code = match c.code() {
+            Some(c) => c,
+            None => continue,
+        };
+        let mut malformed: Option<String> = None;
+        match &c.req {
+            Req::CreateTopic { topic } | Req::DeleteTopic { topic } | Req::GetTopic { topic } => {
+                if definitely_malformed_name(topic) {
+                    malformed = Some(format!("topic name {:?}", topic));
+                }
+            }
+            Req::Publish { topic, .. } => {
+                if definitely_malformed_name(topic) {
+                    malformed = Some(format!("topic name {:?}", topic));
+                }
+            }
+            Req::CreateSub { sub, topic, push, .. } => {
+                if definitely_malformed_name(sub) {
+                    malformed = Some(format!("subscription name {:?}", sub));
+                } else if definitely_malformed_name(topic) {
+                    malformed = Some(format!("topic name {:?}", topic));
+                } else if let Some(p) = push {
+                    if !p.endpoint.trim().starts_with("http") {
+                        malformed = Some(format!("push endpoint {:?}", p.endpoint));
+                    }
+                }
+            }
+            Req::DeleteSub { sub } | Req::GetSub { sub } | Req::Pull { sub, .. } => {
+                if definitely_malformed_name(sub) {
+                    malformed = Some(format!("subscription name {:?}", sub));
+                }
+            }
+            Req::Ack { sub, ack_ids } => {
+                if definitely_malformed_name(sub) {
+                    malformed = Some(format!("subscription name {:?}", sub));
+                } else if let Some(a) = ack_ids.iter().find(|a| definitely_malformed_ack_id(a)) {
+                    malformed = Some(format!("ack id {:?}", a));
+                }
+            }
+            Req::ModAck { sub, ack_ids, secs } => {
+                if definitely_malformed_name(sub) {
+                    malformed = Some(format!("subscription name {:?}", sub));
+                } else if let Some(a) = ack_ids.iter().find(|a| definitely_malformed_ack_id(a)) {
+                    malformed = Some(format!("ack id {:?}", a));
+                } else if *secs < 0 && !ack_ids.is_empty() {
+                    malformed = Some(format!("ack_deadline_seconds {}", secs));
+                }
+            }
+            Req::ListPage { parent, page_size, token, kind } => {
+                let decodable = token.is_empty() || token_decodable(token).is_some();
+                if *page_size < 0 {
+                    malformed = Some(format!("page_size {}", page_size));
+                } else if !decodable {
+                    malformed = Some(format!("page token {:?}", token));
+                } else if matches!(kind, ListKind::TopicSubs) && definitely_malformed_name(parent) {
+                    malformed = Some(format!("topic name {:?}", parent));
+                } else if !matches!(kind, ListKind::TopicSubs) && !parent.starts_with("projects/") {
+                    malformed = Some(format!("project {:?}", parent));
+                }
+            }
+            _ => {}
+        }
+        if let Some(what) = malformed {
+            if code != INVALID_ARGUMENT {
+                let kind = format!("{:?}", std::mem::discriminant(&c.req));
+                let _ = kind;
+                out.push(v("C17.status", format!("accepted:{}", what.split(' ').next().unwrap_or("")), format!("call {} {:?} with malformed {} returned code {} instead of INVALID_ARGUMENT", c.id, short_req(&c.req), what, code)));
+            }
+        }
+    }
+    // Streams: a malformed control message / opening request must end the stream with a status.
+    for s in m.streams.values() {
+        let hostile_send = s.sends.iter().find(|x| x.5);
+        let bad_open = definitely_malformed_name(&s.sub) || s.max_msgs < 0 || s.max_msgs > 65535;
+        if let Some((seq, _, _, _, _, _)) = hostile_send {
+            if let Some(b) = m.barrier_after(*seq) {
+                match &s.end {
+                    Some((es, _, StreamEnd::Status(code, _))) if *es < b.seq => {
+                        if *code != INVALID_ARGUMENT {
+                            out.push(v("C17.status", "stream_control_status", format!("stream {}: malformed control message answered with status {}", s.slot, code)));
+                        }
+                    }
+                    Some((_, _, StreamEnd::Dropped)) => {}
+                    Some((es, _, StreamEnd::Status(_, _))) if *es >= b.seq => {}
+                    Some((_, _, end)) => {
+                        out.push(v("C17.status", "stream_abrupt_end", format!("stream {} ended with {:?} after a malformed control message (no status)", s.slot, end)));
+                    }
+                    None => {
+                        out.push(v("C17.status", "stream_control_ignored", format!("stream {}: malformed control message did not end the stream with a status by the next quiescent barrier", s.slot)));
+                    }
+                }
+            }
+        }
+        if bad_open {
+            match &s.started {
+                Some((_, _, code)) if *code == INVALID_ARGUMENT => {}
+                Some((_, _, code)) => {
+                    if !matches!(s.end, Some((_, _, StreamEnd::Dropped))) {
+                        out.push(v("C17.status", "stream_open_accepted", format!("StreamingPull on {:?} with max_outstanding_messages {} answered with code {}", s.sub, s.max_msgs, code)));
+                    }
+                }
+                None => {}
+            }
+        }
+    }
+}
+
+fn short_req(r: &Req) -> String {
+    let s = format!("{:?}", r);
+    s.chars().take(160).collect()
+}
